@@ -22,6 +22,7 @@ Data objects are identified by a tag; the 12 positions of an operation are *slot
 import CBV.Model.Common
 import CBV.Model.C10
 import CBV.Gen.Tables
+import CBV.Gen.TC07
 
 namespace CBV.C07
 
